@@ -272,17 +272,19 @@ pub fn gen_serial(rng: &mut Rng) -> Vec<u8> {
 }
 
 pub fn gen_kid(rng: &mut Rng) -> Kid {
+	// the same random draws under every build, so that case files are comparable
+	let r = rng.below(6);
+	let n = *rng.pick(&[0usize, 1, 20, 32]);
+	let b = rng.bytes(n);
+	let b20 = rng.bytes(20);
 	if cfg!(feature = "nocrypto") {
-		return Kid::Pre(rng.bytes(20));
+		return Kid::Pre(b20);
 	}
-	match rng.below(6) {
+	match r {
 		0..=2 => Kid::Sha256,
 		3 => Kid::Sha384,
 		4 => Kid::Sha512,
-		_ => {
-			let n = *rng.pick(&[0usize, 1, 20, 32]);
-			Kid::Pre(rng.bytes(n))
-		},
+		_ => Kid::Pre(b),
 	}
 }
 
@@ -295,8 +297,10 @@ pub fn gen_params(rng: &mut Rng) -> PCert {
 	let mut p = PCert::empty();
 	p.nb = gen_dt(rng);
 	p.na = gen_dt(rng);
-	if rng.chance(1, 2) || cfg!(feature = "nocrypto") {
-		p.serial = Some(gen_serial(rng));
+	let with_serial = rng.chance(1, 2);
+	let serial = gen_serial(rng);
+	if with_serial || cfg!(feature = "nocrypto") {
+		p.serial = Some(serial);
 	}
 	if rng.chance(1, 2) {
 		let n = 1 + rng.small_len(40);
